@@ -1,4 +1,5 @@
 #!/bin/bash
+. "$(cd "$(dirname "$0")" && pwd)/env.sh"
 # Warm-up for the Miri engine: builds the Miri sysroot and the C-free vmon-miri crate by running the
 # smallest workload once (the checks rebuild on demand anyway; this only moves the cost into setup).
 cd "$(dirname "$0")/.."
